@@ -450,8 +450,13 @@ class MarkFeatureWriter(BaseFeatureWriter):
         allMarkClasses = self.context.markClasses = {}
         classPrefix = self.markClassPrefix
         newDefs = []
+        generatedClassNames = set()
         for markAnchorName, glyphAnchorPairs in sorted(markGlyphSets.items()):
             className = ast.makeFeaClassName(classPrefix + markAnchorName)
+            if className in generatedClassNames:
+                # a different anchor name was reduced to the same legal class name
+                # (e.g. 'top-alt' and 'topalt'): they must not share a markClass
+                className = ast.makeFeaClassName(className, currentClasses)
             existing = currentClasses.get(className)
             if existing is not None and any(
                 glyphName in existing.glyphs
@@ -477,6 +482,7 @@ class MarkFeatureWriter(BaseFeatureWriter):
                     # this may be different because of name clashes
                     className = mcd.markClass.name
                 allMarkClasses[anchor.key] = currentClasses[className]
+            generatedClassNames.add(className)
         return newDefs
 
     def _defineMarkClass(self, glyphName, x, y, className, markClasses):
